@@ -109,32 +109,56 @@ def tgtRole : String → Role → Option (String × String)
   | "bms", .diff => some ("map", "version")
   | _, _ => none
 
-/-- the value a role has in the *source* -/
-def srcRole (game : String) (r : Role) (src : Src) (m : SrcMap) : Option String :=
-  match game, r with
-  | "osu", .title => m.attrs.lookup "title"
-  | "osu", .artist => m.attrs.lookup "artist"
-  | "osu", .creator => m.attrs.lookup "creator"
-  | "osu", .diff => m.attrs.lookup "version"
-  | "qua", .title => m.attrs.lookup "title"
-  | "qua", .artist => m.attrs.lookup "artist"
-  | "qua", .creator => m.attrs.lookup "creator"
-  | "qua", .diff => m.attrs.lookup "difficulty_name"
-  | "bms", .title => m.attrs.lookup "title"
-  | "bms", .artist => m.attrs.lookup "artist"
-  | "bms", .diff => m.attrs.lookup "version"
-  | "sm", .title => src.attrs.lookup "title"
-  | "sm", .artist => src.attrs.lookup "artist"
-  | "sm", .creator => src.attrs.lookup "credit"
-  | "sm", .diff =>
-    match m.attrs.lookup "difficulty", m.attrs.lookup "difficulty_val" with
-    | some d, some v => some (d ++ (" " ++ (v ++ "")))
-    | _, _ => none
-  | "o2j", .title => src.attrs.lookup "title"
-  | "o2j", .artist => src.attrs.lookup "artist"
-  | "o2j", .creator => src.attrs.lookup "creator"
-  | "o2j", .diff => some m.levelName
+/-- a reference to the source's metadata, independent of the variable names a converter body uses -/
+inductive RAtom where
+  | lit (s : String)
+  /-- attribute of the map set (StepMania, O2Jam sources) -/
+  | setAttr (a : String)
+  /-- attribute of the map -/
+  | mapAttr (a : String)
+  /-- the map's level name (O2Jam) -/
+  | level
+  deriving DecidableEq, Repr
+
+/-- what a role *is* in each source game: the attribute(s) whose concatenation is the role's text -/
+def roleSpec : String → Role → Option (List RAtom)
+  | "osu", .title => some [.mapAttr "title"]
+  | "osu", .artist => some [.mapAttr "artist"]
+  | "osu", .creator => some [.mapAttr "creator"]
+  | "osu", .diff => some [.mapAttr "version"]
+  | "qua", .title => some [.mapAttr "title"]
+  | "qua", .artist => some [.mapAttr "artist"]
+  | "qua", .creator => some [.mapAttr "creator"]
+  | "qua", .diff => some [.mapAttr "difficulty_name"]
+  | "bms", .title => some [.mapAttr "title"]
+  | "bms", .artist => some [.mapAttr "artist"]
+  | "bms", .diff => some [.mapAttr "version"]
+  | "sm", .title => some [.setAttr "title"]
+  | "sm", .artist => some [.setAttr "artist"]
+  | "sm", .creator => some [.setAttr "credit"]
+  | "sm", .diff => some [.mapAttr "difficulty", .lit " ", .mapAttr "difficulty_val"]
+  | "o2j", .title => some [.setAttr "title"]
+  | "o2j", .artist => some [.setAttr "artist"]
+  | "o2j", .creator => some [.setAttr "creator"]
+  | "o2j", .diff => some [.level]
   | _, _ => none
+
+def evalRAtom (src : Src) (m : SrcMap) : RAtom → Option String
+  | .lit s => some s
+  | .setAttr a => src.attrs.lookup a
+  | .mapAttr a => m.attrs.lookup a
+  | .level => some m.levelName
+
+def evalRAtoms (src : Src) (m : SrcMap) : List RAtom → Option String
+  | [] => some ""
+  | a :: t =>
+    match evalRAtom src m a, evalRAtoms src m t with
+    | some x, some y => some (x ++ y)
+    | _, _ => none
+
+/-- the value a role has in the *source* (`none`: the game lacks the role, or the attribute is absent) -/
+def srcRole (game : String) (r : Role) (src : Src) (m : SrcMap) : Option String :=
+  (roleSpec game r).bind (evalRAtoms src m)
 
 def roleOk (sg tg : String) (r : Role) (src : Src) (m : SrcMap) (g : TGroup) (t : TChart) : Bool :=
   match tgtRole tg r, srcRole sg r src m with
@@ -231,29 +255,22 @@ def staticOk (T : Tables) (c : Conv) : Bool :=
   svsStaticOk T c &&
   c.casts.all (fun cc => (findClass T.lcs cc.cls).isSome && (declaredCls T.mcs c cc.tgtAttr).isSome)
 
-/-- the source role as the atoms a converter body would write (`p` = parameter, `v` = variable of the current map) -/
-def srcRoleAtoms (game : String) (r : Role) (p v : String) : Option (List Atom) :=
-  match game, r with
-  | "osu", .title => some [.attr v "title"]
-  | "osu", .artist => some [.attr v "artist"]
-  | "osu", .creator => some [.attr v "creator"]
-  | "osu", .diff => some [.attr v "version"]
-  | "qua", .title => some [.attr v "title"]
-  | "qua", .artist => some [.attr v "artist"]
-  | "qua", .creator => some [.attr v "creator"]
-  | "qua", .diff => some [.attr v "difficulty_name"]
-  | "bms", .title => some [.attr v "title"]
-  | "bms", .artist => some [.attr v "artist"]
-  | "bms", .diff => some [.attr v "version"]
-  | "sm", .title => some [.attr p "title"]
-  | "sm", .artist => some [.attr p "artist"]
-  | "sm", .creator => some [.attr p "credit"]
-  | "sm", .diff => some [.attr v "difficulty", .lit " ", .attr v "difficulty_val"]
-  | "o2j", .title => some [.attr p "title"]
-  | "o2j", .artist => some [.attr p "artist"]
-  | "o2j", .creator => some [.attr p "creator"]
-  | "o2j", .diff => some [.levelName p v]
-  | _, _ => none
+/-- what an atom of a converter body refers to: the parameter is the set when the body loops over it, else the
+map; the loop variable is the map (mirrors `evalAtom`) -/
+def abstractAtom (c : Conv) : Atom → Option RAtom
+  | .lit s => some (.lit s)
+  | .attr o a =>
+    if o == c.param then (if c.loopVar.isSome then some (.setAttr a) else some (.mapAttr a))
+    else if some o == c.loopVar then some (.mapAttr a)
+    else none
+  | .levelName s m => if s == c.param && some m == c.loopVar then some .level else none
+
+def absAtoms (c : Conv) : List Atom → Option (List RAtom)
+  | [] => some []
+  | a :: t =>
+    match abstractAtom c a, absAtoms c t with
+    | some x, some y => some (x :: y)
+    | _, _ => none
 
 def exprAtoms : MetaExpr → Option (List Atom)
   | .fmt ps => some ps
@@ -261,14 +278,36 @@ def exprAtoms : MetaExpr → Option (List Atom)
   | .encoded ps => some ps
   | .opaque _ => none
 
-/-- the last assignment to the target's role attribute is built from the source's role attribute(s) -/
+/-- the last assignment to `<level>.<attr>` of the body (later assignments win) -/
+def lastAssign : List MetaAssign → String → String → Option MetaAssign → Option MetaAssign
+  | [], _, _, acc => acc
+  | m :: t, lvl, a, acc => lastAssign t lvl a (if m.level == lvl && m.attr == a then some m else acc)
+
+def setOnly : RAtom → Bool
+  | .lit _ => true
+  | .setAttr _ => true
+  | _ => false
+
+def hasSet : Shape → Bool
+  | .singleSet | .listOfSets | .mergedSet => true
+  | _ => false
+
+/-- the last assignment to the target's role attribute is built from exactly the source's role attribute(s)
+(through the codec only); the difficulty name may carry a prefix.  A role kept on the set needs a set; in the merged
+shape the set's attributes are assigned after the loop and may refer to the source set only. -/
 def roleStaticOk (c : Conv) (r : Role) : Bool :=
-  match tgtRole c.tgtGame r, srcRoleAtoms c.srcGame r c.param (curVar c) with
+  match tgtRole c.tgtGame r, roleSpec c.srcGame r with
   | some (lvl, a), some want =>
-    match (c.metas.reverse.find? fun m => m.level == lvl && m.attr == a) with
+    match lastAssign c.metas lvl a none with
     | some m =>
       match exprAtoms m.expr with
-      | some ps => if r = .diff then want.isSuffixOf ps else ps == want
+      | some ps =>
+        match absAtoms c ps with
+        | some rs =>
+          (if r = .diff then want.isSuffixOf rs else rs == want) &&
+          (lvl == "map" || (lvl == "set" && hasSet c.shape)) &&
+          (!(lvl == "set" && c.shape == Shape.mergedSet) || rs.all setOnly)
+        | none => false
       | none => false
     | none => false
   | _, _ => true
